@@ -10,6 +10,10 @@ separated by `;`, a list group is `nil`, `e` (empty, non-nil) or integers.
    subslice A B ; s   copy A B ; s   values K ; s1 ; s2 …   remove I ; s   chunk N ; s   chunkproc N F ; s
  D = nil | fresh:len:cap | s1:k | s2:k.   The answer shows the result and every argument's memory afterwards.
 
+   Integer arguments (A B I N) are Go `int`s: any decimal in −2^63 … 2^63−1; the index arithmetic of
+   copy / remove / chunk / chunkproc (and of the flex ops remove / pop / shift / sub / subset / prepend) is
+   executed on the 64-bit wrapping twin `IntOps.wrap64` (`Model/C14Wrap.lean`).
+
 `@ C14 arena v0 v1 …` : ONE arena with the given initial cells that persists over the lines; every slice
  argument is a window `off:len:cap` of it (or `nil`), see `C14Arena.lean`:
    diff D S1 S2 | intersect D S1 S2 | unique D S1 | uniquekey K D S1 | filter D S1 ; acc…
@@ -33,9 +37,21 @@ separated by `;`, a list group is `nil`, `e` (empty, non-nil) or integers.
 import Golib.Model.C14Arena
 import Golib.Model.C14FlexFast
 import Golib.Model.C14FlexAlias
+import Golib.Model.C14Wrap
 
 namespace Golib.C14
 open Golib.Proto
+
+/-- an integer ARGUMENT of the API: a decimal that fits Go's `int` (the harness parses it with
+`strconv.Atoi`, which fails outside the range: `bad-op` on both sides) -/
+def int64? (t : String) : Option Int :=
+  match t.toInt? with
+  | some v => if IsInt v then some v else none
+  | none => none
+
+/-- the machine the code runs on: every `int` operation of the index arithmetic is executed on the
+64-bit two's-complement twin (`Model/C14Wrap.lean`; equal to the unbounded model by `c14_*_nowrap`) -/
+abbrev M : IntOps := IntOps.wrap64
 
 def showSl (s : Sl) : String := if s.isNil then "nil" else showInts s.xs
 
@@ -149,32 +165,32 @@ def call (ts : List String) : String :=
     | some s1, some acc => showBool (containsFunc s1.xs fun v => acc.xs.contains v)
     | _, _ => "bad-op"
   | [["subslice", a, b], g1] =>
-    match a.toInt?, b.toInt?, parseList g1 with
+    match int64? a, int64? b, parseList g1 with
     | some a, some b, some s1 => showView s1.xs (subSlice s1.xs.length a b)
     | _, _, _ => "bad-op"
   | [["copy", a, b], g1] =>
-    match a.toInt?, b.toInt?, parseList g1 with
-    | some a, some b, some s1 => showView s1.xs (copy s1.xs a b)
+    match int64? a, int64? b, parseList g1 with
+    | some a, some b, some s1 => showView s1.xs (copyG M s1.xs a b)
     | _, _, _ => "bad-op"
   | [["remove", i], g1] =>
-    match i.toInt?, parseList g1 with
+    match int64? i, parseList g1 with
     | some i, some s1 =>
-      match remove s1.isNil s1.xs i with
+      match removeG M s1.isNil s1.xs i with
       | none => "panic"
       | some (m, res, v, ok) => s!"{showSl res} {v} {showBool ok} s={showInts m}"
     | _, _ => "bad-op"
   | [["chunk", n], g1] =>
-    match n.toInt?, parseList g1 with
+    match int64? n, parseList g1 with
     | some n, some s1 =>
-      match chunk s1.xs.length n with
+      match chunkG M s1.xs.length n with
       | none => "panic"
       | some none => "nil"
       | some (some cs) => s!"{showChunks s1.xs cs} @{showNats (cs.map (·.1))}"
     | _, _ => "bad-op"
   | [["chunkproc", n, f], g1] =>
-    match n.toInt?, f.toNat?, parseList g1 with
+    match int64? n, f.toNat?, parseList g1 with
     | some n, some f, some s1 =>
-      match chunkProcess s1.xs.length n f with
+      match chunkProcessG M s1.xs.length n f with
       | none => "panic"
       | some (cs, err) => s!"{showChunks s1.xs cs} {if err then "err" else "ok"}"
     | _, _, _ => "bad-op"
@@ -218,7 +234,7 @@ def flexStep (c : Bool) (f : Flex) (ts : List String) : Option (Option (Flex × 
     | none => none
   | "prepend" :: vs =>
     match ints? vs with
-    | some v => let f' := f.prepend v; some (some (f', s!"ok | {showFlex c f'}"))
+    | some v => some ((f.prependG M v).map fun f' => (f', s!"ok | {showFlex c f'}"))
     | none => none
   | ["appendn", k, v0] =>
     match k.toNat?, v0.toInt? with
@@ -226,7 +242,7 @@ def flexStep (c : Bool) (f : Flex) (ts : List String) : Option (Option (Flex × 
     | _, _ => none
   | ["prependn", k, v0] =>
     match k.toNat?, v0.toInt? with
-    | some k, some v0 => let f' := f.prepend (seqFrom v0 k); some (some (f', s!"ok | {showFlex c f'}"))
+    | some k, some v0 => some ((f.prependG M (seqFrom v0 k)).map fun f' => (f', s!"ok | {showFlex c f'}"))
     | _, _ => none
   | ["prependw", a, n] =>
     -- `f.Prepend(f.Values[a:a+n]...)`: the argument aliases the receiver (`none` = slice-bounds panic)
@@ -247,29 +263,29 @@ def flexStep (c : Bool) (f : Flex) (ts : List String) : Option (Option (Flex × 
     | _, _ => none
   | ["popn", k] =>
     match k.toNat? with
-    | some k => some ((repeatRemove Flex.pop k f 0 0).map fun (f', sum, n) => (f', s!"{sum} {n} | {showFlex c f'}"))
+    | some k => some ((repeatRemove (Flex.popG M) k f 0 0).map fun (f', sum, n) => (f', s!"{sum} {n} | {showFlex c f'}"))
     | none => none
   | ["shiftn", k] =>
     match k.toNat? with
-    | some k => some ((repeatRemove Flex.shift k f 0 0).map fun (f', sum, n) => (f', s!"{sum} {n} | {showFlex c f'}"))
+    | some k => some ((repeatRemove (Flex.shiftG M) k f 0 0).map fun (f', sum, n) => (f', s!"{sum} {n} | {showFlex c f'}"))
     | none => none
   | ["get", i] =>
-    match i.toInt? with
+    match int64? i with
     | some i => some ((f.get i).map fun (v, ok) => (f, s!"{v} {showBool ok} | {showFlex c f}"))
     | none => none
   | ["remove", i] =>
-    match i.toInt? with
-    | some i => some ((f.remove i).map fun (f', v, ok) => (f', s!"{v} {showBool ok} | {showFlex c f'}"))
+    match int64? i with
+    | some i => some ((f.removeG M i).map fun (f', v, ok) => (f', s!"{v} {showBool ok} | {showFlex c f'}"))
     | none => none
-  | ["pop"] => some (f.pop.map fun (f', v, ok) => (f', s!"{v} {showBool ok} | {showFlex c f'}"))
-  | ["shift"] => some (f.shift.map fun (f', v, ok) => (f', s!"{v} {showBool ok} | {showFlex c f'}"))
+  | ["pop"] => some ((f.popG M).map fun (f', v, ok) => (f', s!"{v} {showBool ok} | {showFlex c f'}"))
+  | ["shift"] => some ((f.shiftG M).map fun (f', v, ok) => (f', s!"{v} {showBool ok} | {showFlex c f'}"))
   | ["sub", a, b] =>
-    match a.toInt?, b.toInt? with
-    | some a, some b => some ((f.subSlice a b).map fun nf => (f, s!"{showFlex c nf}"))
+    match int64? a, int64? b with
+    | some a, some b => some ((f.subSliceG M a b).map fun nf => (f, s!"{showFlex c nf}"))
     | _, _ => none
   | ["subset", a, b] =>
-    match a.toInt?, b.toInt? with
-    | some a, some b => some ((f.subSlice a b).map fun nf => (nf, s!"ok | {showFlex c nf}"))
+    match int64? a, int64? b with
+    | some a, some b => some ((f.subSliceG M a b).map fun nf => (nf, s!"ok | {showFlex c nf}"))
     | _, _ => none
   | ["len"] => some (some (f, toString f.len))
   | _ => none
@@ -292,7 +308,7 @@ def flexStepA (c : Bool) (f : FlexA) (ts : List String) : Option (Option (FlexA 
     | some k => some ((repeatPopA k f 0 0).map fun (f', sum, n) => (f', s!"{sum} {n} | {showFlex c f'.toFlex}"))
     | none => none
   | ["get", i] =>
-    match i.toInt? with
+    match int64? i with
     | some i => some ((f.get i).map fun (v, ok) => (f, s!"{v} {showBool ok} | {showFlex c f.toFlex}"))
     | none => none
   | _ => (flexStep c f.toFlex ts).map fun r => r.map fun (f', out) => (FlexA.ofFlex f', out)
